@@ -296,11 +296,11 @@ def run_ssh(ctx, ncases):
 
 
 def run(ctx):
-    n = ctx.pick(260, 2600)
+    n = ctx.pick(260, 1800)
     ok = run_pipe(ctx, n)
     if ok and not ctx.quick and ctx.shard % 4 == 0:
         ctx.guard(run_ssh, ctx, 12)
-    ctx.require("check_calls_completed", ctx.pick(600, 8000))
+    ctx.require("check_calls_completed", ctx.pick(600, 6000))
     ctx.require("digest_comparisons", ctx.pick(300, 4000))
     ctx.require("server_handle_reads_logged", ctx.pick(1000, 10000))
-    ctx.require("wire_replies_seen", ctx.pick(600, 8000))
+    ctx.require("wire_replies_seen", ctx.pick(600, 6000))
